@@ -210,10 +210,11 @@ def _check(ctx, mod, replay_shard):
                     unreached.append("%s@%s" % (d, v))
 
     wall = time.time() - ctx.t0
-    os.makedirs(os.path.join(HERE, "replays", prop), exist_ok=True)
+    rdir = os.environ.get("VERIF_REPLAY_DIR") or os.path.join(HERE, "replays")
+    os.makedirs(os.path.join(rdir, prop), exist_ok=True)
     replay_paths = []
     for n, v in enumerate(new_viols[:20]):
-        rp = os.path.join("replays", prop, "%s-seed%d-%d.json" % (ctx.tier, ctx.seed, n))
+        rp = os.path.join(os.path.relpath(rdir, HERE), prop, "%s-seed%d-%d.json" % (ctx.tier, ctx.seed, n))
         with open(os.path.join(HERE, rp), "w") as f:
             json.dump(v, f, indent=1, default=repr)
         replay_paths.append(rp)
@@ -255,11 +256,12 @@ def _check(ctx, mod, replay_shard):
         if getattr(mod, "EXHAUSTIVE", None):
             ev["coverage"]["exhaustive"] = True
             ev["coverage"]["exhaustive_scope"] = mod.EXHAUSTIVE
-        os.makedirs(os.path.join(HERE, "evidence"), exist_ok=True)
-        tmp = os.path.join(HERE, "evidence", prop + ".json.tmp")
+        evdir = os.environ.get("VERIF_EVIDENCE_DIR") or os.path.join(HERE, "evidence")
+        os.makedirs(evdir, exist_ok=True)
+        tmp = os.path.join(evdir, prop + ".json.tmp")
         with open(tmp, "w") as f:
             json.dump(ev, f, indent=1, default=repr)
-        os.replace(tmp, os.path.join(HERE, "evidence", prop + ".json"))
+        os.replace(tmp, os.path.join(evdir, prop + ".json"))
 
     print("%s tier=%s seed=%d interpreters=%s shards=%d evaluations=%d distinct_nontrivial=%d wall=%.1fs" % (
         prop, ctx.tier, ctx.seed, ",".join(sorted(per_interp_counters)), len(results),
